@@ -418,6 +418,27 @@ def run(ctx, deep, model_ok):
     g = impl.gfapy()
     kinds = {}
     terms, metas = [], []
+    # 0. JSON text nested far deeper than the interpreter's recursion limit, through every way a J value is taken: as the
+    #    text of a line, assigned to a tag, checked by validate_field()/validate(), written
+    for label, deeptext in (('60000 open brackets', '[' * 60000), ('30000 nested objects', '{"a":' * 30000),
+                            ('balanced 60000-deep list', '[' * 60000 + ']' * 60000)):
+        for vlevel in (0, 1, 2, 3):
+            case = {'kind': 'line', 'text': 'S\ta\t*\txx:J:[1]', 'version': 'gfa1', 'vlevel': vlevel, 'then': 'set xx to ' + label}
+            def probe():
+                l = g.Line('S\ta\t*\txx:J:[1]', version='gfa1', vlevel=vlevel)
+                for f in (lambda: l.set('xx', deeptext), lambda: l.validate_field('xx'), lambda: l.validate(), lambda: str(l),
+                          lambda: l.get('xx'), lambda: g.Line('S\ta\t*\txx:J:' + deeptext, version='gfa1', vlevel=vlevel).validate()):
+                    try:
+                        f()
+                    except g.Error:
+                        pass
+            r = guarded(probe, 20)
+            kinds[impl.outcome_name(r) if r[0] != 'hang' else 'hang'] = kinds.get(impl.outcome_name(r) if r[0] != 'hang' else 'hang', 0) + 1
+            if bad(r):
+                ctx.violation('failing-input', 'a J value of %s: %s' % (label, 'does not terminate' if r[0] == 'hang' else 'raised ' + impl.outcome_name(r)),
+                              case, 'gfapy.Error or success', 'hang' if r[0] == 'hang' else impl.outcome_name(r),
+                              python="import gfapy\nl=gfapy.Line('S\\ta\\t*\\txx:J:[1]',version='gfa1',vlevel=%d)\nd=%r*%d\ntry: l.set('xx',d)\nexcept gfapy.Error: pass\nl.validate_field('xx')"
+                                     % (vlevel, deeptext[:5] if deeptext[0] == '{' else '[', 30000 if deeptext[0] == '{' else 60000))
     # 1. exhaustive short lines
     shorts = structured_lines(rng) + short_lines(rng, 2) + short_lines(rng, 3, sample=(6000 if deep else 600))
     for text in shorts:
